@@ -68,3 +68,5 @@ def run(chk):
     C13c.config(chk, mod_gen, None)
     from . import C14b
     C14b.run(chk)
+    from . import C14c
+    C14c.run(chk)
